@@ -374,8 +374,7 @@ pub fn drive_one(
 
 /// coarse class of an error message (for the evidence histogram only)
 pub fn err_class(m: &str) -> String {
-    let last = m.rsplit(": ").next().unwrap_or(m);
-    let cleaned: String = last
+    let cleaned: String = m
         .chars()
         .map(|c| if c.is_ascii_digit() { '#' } else { c })
         .collect();
